@@ -37,3 +37,82 @@ Example c03_example :
   | _ => False
   end.
 Proof. vm_compute. reflexivity. Qed.
+
+(** ---- added: stronger statements (proofs in Proofs/*2.v) ---- *)
+From Coq Require Import List ZArith NArith Bool.
+From CqlProxy Require Import Lib.Val Lib.Util Lib.Wire Model.Frame Proofs.FrameProofs Proofs.FrameProofs2.
+
+(** The header codec is a bijection between well-formed headers ([wf_header]: supported
+    version 2/3/4/5/DSEv1/DSEv2, one flag byte, a stream id that fits the version's field -- 16
+    bits from v3, 8 bits in v2 --, an opcode of the header's direction, an int32 length) and
+    their encodings: on well-formed bytes [decode_header] accepts exactly these, and the two
+    functions are mutually inverse. *)
+Theorem c03_header_roundtrip_both_ways :
+  forall b h r, wf_bytes b -> (decode_header b = inr (h, r) <-> wf_header h /\ b = encode_header h ++ r).
+Proof. exact decode_header_iff. Qed.
+Print Assumptions c03_header_roundtrip_both_ways.
+
+(** decode after encode needs no assumption on what follows the header *)
+Theorem c03_header_decode_encode :
+  forall h r, wf_header h -> decode_header (encode_header h ++ r) = inr (h, r).
+Proof. exact decode_encode_header. Qed.
+Print Assumptions c03_header_decode_encode.
+
+(** Which inputs are excluded, and why -- for any byte list: too short (fewer than 2 bytes, or
+    fewer than the 9 -- v2: 8 -- header bytes), a version outside the supported set, an unassigned
+    opcode, an opcode of the other direction. *)
+Theorem c03_header_rejections :
+  forall b e, decode_header b = inl e ->
+  let v := hd 0 b mod 128 in
+  let op := nth (if (3 <=? v)%N then 4%nat else 3%nat) b 0 in
+  match e with
+  | HShort => (length b < 2)%nat \/
+              (version_supported v = true /\ (length b < (if (3 <=? v)%N then 9 else 8))%nat)
+  | HBadVersion v' => (2 <= length b)%nat /\ v' = v /\ version_supported v = false
+  | HBadOpcode => version_supported v = true /\ opcode_is_request op = false /\ opcode_is_response op = false
+  | HWrongDirection => version_supported v = true /\
+                       ((128 <=? hd 0 b) = true /\ opcode_is_request op = true \/
+                        (128 <=? hd 0 b) = false /\ opcode_is_response op = true)
+  end.
+Proof. exact decode_header_rejects. Qed.
+Print Assumptions c03_header_rejections.
+
+(** Raw frames round-trip both ways in every supported version (v2 included), with arbitrary
+    bytes following the frame left untouched. *)
+Theorem c03_raw_frame_decode_encode :
+  forall f rest, wf_frame f -> decode_raw_frame (encode_raw_frame f ++ rest) = Some (f, rest).
+Proof. exact decode_encode_raw_frame. Qed.
+Print Assumptions c03_raw_frame_decode_encode.
+
+Theorem c03_raw_frame_encode_decode :
+  forall b f rest, wf_bytes b -> decode_raw_frame b = Some (f, rest) ->
+    b = encode_raw_frame f ++ rest /\ wf_frame f.
+Proof. exact encode_decode_raw_frame. Qed.
+Print Assumptions c03_raw_frame_encode_decode.
+
+(** What the proxy writes when it forwards a frame with stream id [s] decodes to the SAME frame
+    -- version, direction, flags, opcode, length, body -- with only the stream id replaced, and
+    nothing left over: no well-formed frame is dropped or altered. *)
+Theorem c03_forwarded_frame_decodes_to_same_frame :
+  forall f s rest, wf_frame f -> s < (if 3 <=? h_version (rf_header f) then 65536 else 256) ->
+    decode_raw_frame (forward f s ++ rest) = Some (with_stream f s, rest).
+Proof. exact decode_forward. Qed.
+Print Assumptions c03_forwarded_frame_decodes_to_same_frame.
+
+(** Bytes to bytes: a frame that arrived, forwarded under another stream id and forwarded back
+    under its original one (request path then response path of one stream) is restored exactly. *)
+Theorem c03_forward_back_restores :
+  forall b f rest s, wf_bytes b -> decode_raw_frame b = Some (f, rest) ->
+    s < (if 3 <=? h_version (rf_header f) then 65536 else 256) ->
+    exists f', decode_raw_frame (forward f s ++ rest) = Some (f', rest) /\
+               f' = with_stream f s /\
+               forward f' (h_stream (rf_header f)) ++ rest = b.
+Proof. exact forward_back_restores. Qed.
+Print Assumptions c03_forward_back_restores.
+
+(** Protocol v2 (one-byte stream id), excluded above by [3 <= version]: only byte 2 changes. *)
+Theorem c03_forward_only_stream_differs_v2 :
+  forall b f s, wf_bytes b -> decode_raw_frame b = Some (f, []) -> h_version (rf_header f) < 3 -> s < 256 ->
+    forward f s = firstn 2 b ++ [s] ++ skipn 3 b.
+Proof. exact forward_only_stream_differs_v2. Qed.
+Print Assumptions c03_forward_only_stream_differs_v2.
